@@ -3,7 +3,7 @@ from vt import chartgen as cg, qrun, qoracle, hosts
 
 
 def gen_case(rng, tier, want_acts=True, allow_defer=True, long_run=False, hosts_=('queued', 'queued', 'ao'),
-             spied=(True,), instrumented=(True,), live=False, n_ops=None):
+             spied=(True,), instrumented=(True,), live=False, n_ops=None, clears=False):
   spec = cg.gen_spec(rng, nmax=rng.choice([4, 8, 12]), side_acts=want_acts, name_style=rng.choice(cg.NAME_STYLES))
   if not allow_defer:
     for r in spec['react'].values():
@@ -19,6 +19,10 @@ def gen_case(rng, tier, want_acts=True, allow_defer=True, long_run=False, hosts_
   n_ops = n_ops or (rng.randint(120, 400) if long_run else rng.randint(5, 40))
   sigs = spec['sigs'][:-1]
   ops = [(('lifo' if rng.random() < 0.25 else 'fifo'), ('ZZ' if rng.random() < 0.05 else rng.choice(sigs))) for _ in range(n_ops)]
+  if clears and rng.random() < 0.5:
+    # the client empties the full spy / the trace once or twice, early in the run (so that long runs fill the rings again)
+    for _ in range(rng.randint(1, 2)):
+      ops.insert(rng.randrange(0, max(1, len(ops) // 4)), (rng.choice(['clear_spy', 'clear_spy', 'clear_trace']), None))
   return spec, start, ops, cfg
 
 
